@@ -100,7 +100,7 @@ theorem tie_pre_check_accepts (st st' : keeper_StateTransition) (eff : List Go.E
     ¬ (st.cond_6871368b = true ∧ st.cond_efefb3c4 = true) ∧
     (st.evm_ChainConfig_IsLondon st.evm_Context_BlockNumber = true → st.evm_Config_NoBaseFee = false →
        st.gasTipCap ≤ st.gasFeeCap ∧ st.evm_Context_BaseFee ≤ st.gasFeeCap) := by
-  unfold keeper_StateTransition_preCheck at h
+  unfold keeper_StateTransition_preCheck keeper_StateTransition_preCheck.k1 keeper_StateTransition_preCheck.k2 keeper_StateTransition_preCheck.k3 at h
   simp only [hf, Bool.not_false, if_true] at h
   by_cases h1 : st.state_GetNonce_st_msg_From < st.msg_Nonce
   · simp [h1] at h
@@ -150,13 +150,13 @@ def intrinsicSpec (data : List Nat) (alNil : Bool) (alLen alKeys : Nat) (create 
 theorem range_count (data : List Nat) (al : types_AccessList) (cc hs e28 : Bool) (gas : Nat) :
     ∀ (it : List Nat) (ix : Int) (nz : Nat), nz + it.length < 2^64 →
       core_IntrinsicGas.range1 it ix data al cc hs e28 gas nz
-        = core_IntrinsicGas.range1 [] 0 data al cc hs e28 gas (nz + nzCount it) := by
+        = core_IntrinsicGas.k2 data al cc hs e28 gas (nz + nzCount it) := by
   intro it
   induction it with
   | nil => intro ix nz _; unfold core_IntrinsicGas.range1; simp [nzCount]
   | cons b tl ih =>
     intro ix nz hlen
-    conv => lhs; unfold core_IntrinsicGas.range1
+    unfold core_IntrinsicGas.range1
     simp only [List.length_cons] at hlen
     by_cases hb : b = 0
     · simp only [hb, decide_true, Bool.not_true, Bool.false_eq_true, if_false]
@@ -178,7 +178,7 @@ theorem tie_intrinsic_gas (data : List Nat) (al : types_AccessList) (cc hs e28 :
   have hU2 : Go.toU 64 al.StorageKeys = al.StorageKeys.toNat := by unfold Go.toU; omega
   have hl' : al.len.toNat < 2^32 := by omega
   have hk' : al.StorageKeys.toNat < 2^32 := by omega
-  unfold core_IntrinsicGas intrinsicSpec
+  unfold core_IntrinsicGas core_IntrinsicGas.k3 intrinsicSpec
   generalize hbase : (if (cc && hs) = true then (53000 : Nat) else 21000) = base
   have hb : base ≤ 53000 := by rw [← hbase]; split <;> omega
   by_cases h0 : data.length = 0
@@ -190,7 +190,7 @@ theorem tie_intrinsic_gas (data : List Nat) (al : types_AccessList) (cc hs e28 :
   · have hpos : ((data.length : Nat) : Int) > 0 := by omega
     simp only [hpos, decide_true, if_true]
     rw [range_count data al cc hs e28 base data 0 0 (by omega)]
-    unfold core_IntrinsicGas.range1
+    unfold core_IntrinsicGas.k2 core_IntrinsicGas.k3
     simp only [Nat.zero_add, hU1, hU2]
     generalize hq : (if e28 = true then (16 : Nat) else 68) = q
     have hq' : q = 16 ∨ q = 68 := by rw [← hq]; split <;> simp
@@ -229,7 +229,7 @@ theorem tie_destroy_guard (acc : types_AccountI) (now : time_Time) (hnil : acc.c
       some (!acc.is_sdk_ModuleAccountI
             && !(acc.is_vestingtypes_BaseVestingAccount && decide (acc.as_vestingtypes_BaseVestingAccount_GetEndTime > now.UTC_Unix))
             && !(acc.is_vesting_VestingAccount && decide (acc.as_vesting_VestingAccount_GetEndTime > now.UTC_Unix)), reason) := by
-  unfold utils_CheckIfAccountIsSuitableForDestroyingAt
+  unfold utils_CheckIfAccountIsSuitableForDestroyingAt utils_CheckIfAccountIsSuitableForDestroyingAt.k1 utils_CheckIfAccountIsSuitableForDestroyingAt.k2
   simp only [hnil, Bool.false_eq_true, if_false]
   cases acc.is_sdk_ModuleAccountI <;> cases acc.is_vestingtypes_BaseVestingAccount <;> cases acc.is_vesting_VestingAccount <;>
     by_cases h1 : acc.as_vestingtypes_BaseVestingAccount_GetEndTime > now.UTC_Unix <;>
